@@ -67,12 +67,12 @@ Proof. exact params_defaults_cover. Qed.
 (* the two function-space constructors are the same term after mesh.coords := coords *)
 Theorem C07_adjoint_space_same_term : String.eqb afs_term_adjoint afs_term_direct = true.
 Proof. exact adjoint_space_same_term. Qed.
-Theorem C07_adjoint_mesh_rebuild_partial :
-  afs_mesh_fields_wrong = [] /\ forallb (fun f => String.eqb f "block_maps") afs_mesh_fields_missing = true.
-Proof. exact adjoint_mesh_rebuild_partial. Qed.
-(* NOT PROVED: afs_mesh_fields_missing = [] (the re-made mesh carries every field of the original) because it is false on the
-   current tree: construct_function_space_for_adjoint does not pass block_maps (known finding F3b, replayed on the implementation).
-   NOT PROVED: that the jax.vjp / jvp closures of Objective.__init__ and MechanicsInverse are transposes of the exact Jacobians
+(* ... and the mesh it re-makes carries every field of the Mesh namedtuple, copied verbatim except coords := coords
+   (defect F3b -- block_maps dropped -- repaired by ce2f754; this theorem fails if a field is dropped again) *)
+Theorem C07_adjoint_mesh_rebuild :
+  afs_mesh_fields_missing = [] /\ afs_mesh_fields_wrong = [] /\ afs_mesh_rebuild_copies_all_fields = true.
+Proof. exact adjoint_mesh_rebuild. Qed.
+(* NOT PROVED: that the jax.vjp / jvp closures of Objective.__init__ and MechanicsInverse are transposes of the exact Jacobians
    (JAX's autodiff); checked against dense jacfwd on the implementation only. *)
 
 Example C07_nonvacuous : forall h j v dp : R, 0 < h ->
